@@ -9,6 +9,9 @@ Call sites (the first component of every deviation signature):
     Value(num,den).value_sat         from_satoshi.value_sat             from_satoshi.str
     roundtrip(str->parse)            Output(value=str) / Input(value=str) / Output(value=Value)
     Output(value=float) / add_output(float) / Output(value=int).raw / tx.fee
+    output forms of one Value object (sub-space `views`): Value.to_bytes|byteorder=.. Value.to_hex|byteorder=..
+    hex(Value) index(Value) int(Value) float(Value) repr(Value) Value.value_sat str(Value)
+    Value.str(own|auto|1|symbol)|currency_repr=.. Value.str_unit|currency_repr=.. Value.str_auto|currency_repr=..
 """
 import math
 from fractions import Fraction
@@ -23,7 +26,11 @@ RULE = ('every integer amount n of the stated windows/alphabets (0..2^20, the to
         'symbols: the exact decimal text of n in that denominator is parsed by the library, n is converted by '
         'from_satoshi, formatted by Value.str (default decimals and the number of decimals one smallest unit '
         'needs) and parsed back; plus string-form, numeric-denominator, network/currency-code and transaction '
-        'Input/Output alphabets (full products). Expected values are computed with Python integers/Fractions. '
+        'Input/Output alphabets (full products); plus, for Value objects made by three routes (from_satoshi, '
+        'from_satoshi with a denominator, text) on every network, every output form of the object (to_bytes and '
+        'to_hex with every length x byte order x calling convention, hex, index, int, float, repr, str, str_unit, '
+        'str_auto, str with own/auto/unit/symbol denominator x decimals x currency_repr) and every sequence of two '
+        '(thorough: three) such calls on one object. Expected values are computed with Python integers/Fractions. '
         'A case is non-trivial when the library returned a value that was compared with the oracle (refusals and '
         'formats with too few decimals to show one unit are counted as evaluations only). distinct_nontrivial is '
         'counted conservatively: one per distinct (sub-space, denominator, block of 64 consecutive amounts) for '
@@ -48,6 +55,15 @@ ASSUMPTIONS = [
     'unknown unit words such as "SAT" are observed and reported as outcome labels, not judged',
     'Value.str(\'\') refuses the empty symbol although Value(x, \'\') accepts it; the check uses the numeric '
     'denominator 1 for the main unit when formatting',
+    'output forms (views): to_bytes/to_hex of an amount that does not fit the requested length (or is negative) '
+    'must be refused (any exception); only even to_hex lengths are enumerated (the documented meaning of the '
+    'argument is the length of the text); upper/lower case of the hexadecimal text is not demanded; int(Value) is '
+    'the whole number of main units and float(Value) the double nearest to the amount in main units (both '
+    'documented by example in the class docstring); the unit text of a formatted amount has to be the requested '
+    'denominator symbol followed by the currency code / symbol / plural name of the golden network table, except '
+    'that sat, msat and µsat on bitcoin carry no currency text (pinned by the library\'s tests); with the '
+    'automatic denominator any of the 20 symbols is accepted and the number is judged in that denominator; '
+    'arithmetic on Value objects (+ - * /) is not part of this property and not enumerated',
     'Transaction(inputs, outputs) must refuse outputs that exceed the inputs; the sign of Transaction.fee for '
     'transactions assembled step by step (add_input/add_output/update_totals) is left to C07',
 ]
@@ -166,6 +182,22 @@ def selftest():
     assert collides_with_code('T', 'BTC') and collides_with_code('T', 'DOGE') and not collides_with_code('T', 'LTC')
     assert not collides_with_code('m', 'BTC') and nets_of_code('tBTC') == ['testnet', 'testnet4']
     assert den_class('') == 'unit' and den_class('sat') == 'smallest' and den_class('m') == 'scaled'
+    # serialisation oracle against published constants: 21e6 BTC and 15 sat as 8-byte amounts, hex()
+    assert ser_amount(SUPPLY, 8, 'little').hex() == '0040075af0750700'
+    assert ser_amount(SUPPLY, 8, 'big').hex() == '000775f05a074000' == '%016x' % SUPPLY
+    assert ser_amount(15, 8, 'little').hex() == '0f00000000000000' and ser_amount(1, 1, 'big') == b'\x01'
+    assert ser_amount(256, 1, 'big') is None and ser_amount(-1, 8, 'little') is None and ser_amount(0, 0, 'big') == b''
+    assert ser_amount(5000000000, 8, 'little').hex() == '00f2052a01000000'        # the 50 BTC of the genesis block
+    for n in (0, 1, 255, 256, 0x3c336080, SUPPLY):
+        assert '0x' + hex_digits(n) == hex(n)
+        for k in (7, 8, 16):
+            assert ser_amount(n, k, 'big') == n.to_bytes(k, 'big') and ser_amount(n, k, 'little') == n.to_bytes(k, 'little')
+    assert hex_digits(1010000000) == '3c336080'                                    # docstring example 10.1 BTC
+    for net in rnets.NAMES:
+        for f in CREPR.values():
+            assert isinstance(rnets.NETS[net][f], str) and rnets.NETS[net][f], (net, f)
+    assert len(view_alphabet('full')) > 150 and all(v in view_alphabet(k) for v in view_alphabet('hist') for k in ('full', 'text'))
+    assert all(v in view_alphabet('full') for v in view_alphabet('text'))
 
 
 # ----------------------------------------------------------------------------------------------------------
@@ -837,7 +869,324 @@ def sub_words(case):
     return {'n': rec.n, 'out': rec.out, 'nt': []}
 
 
-SUBS = {'txflags': sub_txflags, 'win': sub_win, 'forms': sub_forms, 'numeric': sub_numeric, 'nets': sub_nets, 'txout': sub_txout,
+# ----------------------------------------------------------------------------------------------------------
+# sub-space: every output form ("view") of one Value object x every documented argument value, and call histories
+SER_BO = (None, 'little', 'big')
+BYTES_LEN = (None, 1, 2, 3, 4, 5, 7, 8, 9, 16)
+HEX_LEN = (None, 2, 4, 6, 8, 10, 14, 16, 18, 32)            # even: the documented meaning is "length of the text"
+CREPR = {'code': 'currency_code', 'symbol': 'currency_symbol', 'name': 'currency_name_plural'}
+VIEW_ROUTES = ('from_satoshi', 'from_satoshi_den', 'text')
+
+
+def ser_amount(n, nbytes, bo):
+    """The amount as nbytes bytes in byte order bo; None when it does not fit (refusal expected)."""
+    if n < 0 or nbytes < 0 or (n >> (8 * nbytes)):
+        return None
+    bs = [(n >> (8 * i)) & 0xff for i in range(nbytes)]
+    if bo == 'big':
+        bs.reverse()
+    return bytes(bs)
+
+
+def hex_digits(n):
+    out = ''
+    while True:
+        n, r = divmod(n, 16)
+        out = '0123456789abcdef'[r] + out
+        if not n:
+            return out
+
+
+def view_alphabet(kind):
+    """Every view call as [method, args...].  'full': all of them; 'hist': the reduced alphabet used for call
+    histories; 'text': the reduced alphabet plus every formatted-text view (what depends on the network)."""
+    red = [['to_bytes', None, None, 'pos'], ['to_bytes', 8, 'big', 'pos'], ['to_bytes', 4, 'little', 'kw'],
+           ['to_hex', None, None, 'pos'], ['to_hex', 16, 'big', 'kw'], ['to_hex', 14, 'big', 'pos'],
+           ['hex'], ['index'], ['int'], ['float'], ['repr'], ['value_sat'], ['__str__'],
+           ['str', 'auto', None, None], ['str', 1, None, 'symbol'], ['str', 'm', None, 'name'],
+           ['str_unit', None, None], ['str_auto', 0, 'code']]
+    if kind == 'hist':
+        return red
+    vs = []
+    if kind == 'full':
+        for meth, lens in (('to_bytes', BYTES_LEN), ('to_hex', HEX_LEN)):
+            for ln in lens:
+                for bo in SER_BO:
+                    vs.append([meth, ln, bo, 'pos'])
+                    if (ln is not None or bo is not None) and ln in (None, 4, 8, 16):
+                        vs.append([meth, ln, bo, 'kw'])
+        vs += [['hex'], ['index'], ['int'], ['float'], ['repr'], ['value_sat'], ['__str__']]
+    for crepr in (None, 'code', 'symbol', 'name'):
+        for dec in (None, 0, 8):
+            vs.append(['str', None, dec, crepr])
+            vs.append(['str', 'auto', dec, crepr])
+            vs.append(['str', 1, dec, crepr])
+            vs.append(['str_unit', dec, crepr])
+            vs.append(['str_auto', dec, crepr])
+    for crepr in ('symbol', 'name'):
+        for sym in SYMS:
+            if sym:
+                vs.append(['str', sym, None, crepr])
+    return vs + [v for v in red if v not in vs]
+
+
+def view_site(view):
+    m = view[0]
+    if m in ('to_bytes', 'to_hex'):
+        return 'Value.%s|byteorder=%s' % (m, view[2] or 'default')
+    if m == 'str':
+        d = view[1]
+        return 'Value.str(%s)|currency_repr=%s' % (
+            'own' if d is None else 'auto' if d == 'auto' else '1' if d == 1 else 'symbol', view[3] or 'default')
+    if m in ('str_unit', 'str_auto'):
+        return 'Value.%s|currency_repr=%s' % (m, view[2] or 'default')
+    return {'hex': 'hex(Value)', 'index': 'index(Value)', 'int': 'int(Value)', 'float': 'float(Value)',
+            'repr': 'repr(Value)', 'value_sat': 'Value.value_sat', '__str__': 'str(Value)'}[m]
+
+
+def _call_view(v, view):
+    import operator
+    m = view[0]
+    if m in ('to_bytes', 'to_hex'):
+        ln, bo, style = view[1], view[2], view[3]
+        args, kw = [], {}
+        if style == 'kw':
+            if ln is not None:
+                kw['length'] = ln
+            if bo is not None:
+                kw['byteorder'] = bo
+        else:
+            if ln is not None:
+                args.append(ln)
+            if bo is not None:
+                if ln is None:
+                    kw['byteorder'] = bo
+                else:
+                    args.append(bo)
+        return getattr(v, m)(*args, **kw)
+    if m in ('str', 'str_unit', 'str_auto'):
+        args = [view[1]] if m == 'str' and view[1] is not None else []
+        dec, crepr = view[-2], view[-1]
+        kw = {}
+        if dec is not None:
+            kw['decimals'] = dec
+        if crepr is not None:
+            kw['currency_repr'] = crepr
+        return getattr(v, m)(*args, **kw)
+    if m == 'hex':
+        return hex(v)
+    if m == 'index':
+        return operator.index(v)
+    if m == 'int':
+        return int(v)
+    if m == 'float':
+        return float(v)
+    if m == 'repr':
+        return repr(v)
+    if m == 'value_sat':
+        return v.value_sat
+    if m == '__str__':
+        return str(v)
+    raise ValueError(m)
+
+
+def mag_err(n, got):
+    """The magnitude / error part of cls_int."""
+    return '%s|%s' % ('n>=2^50' if abs(n) >= TOP else 'n<2^50', 'off_by_1' if abs(got - n) == 1 else 'err_other')
+
+
+def cls_ser(exp, got, n, bo):
+    """Class of a wrong serialisation (bytes) of amount n that fits: the finite set of explanations."""
+    if got == exp[::-1]:
+        return 'byte_order_reversed'
+    if int.from_bytes(got, bo) == n:
+        return 'wrong_length_same_amount'
+    if len(got) == len(exp):
+        return 'other_amount'
+    return 'wrong_length_other_amount'
+
+
+def eval_view(v, view, net, own_sym, n):
+    """One view call on object v (amount n >= 0 smallest units on network net, own denominator own_sym).
+    -> {'label', 'sig' (None = agrees with the oracle / not demanded), 'detail', 'got'}."""
+    m = view[0]
+
+    def res(label, cl=None, **detail):
+        if cl is None:
+            return {'label': label, 'sig': None, 'got': detail.get('got')}
+        return {'label': label, 'sig': '%s|%s' % (view_site(view), cl),
+                'detail': dict(detail, view=view, n=n, network=net, own_den=own_sym), 'got': detail.get('got')}
+
+    try:
+        got = _call_view(v, view)
+        exc = None
+    except Exception as e:
+        got, exc = None, e
+    # ---------------------------------------------------------------- bytes / hexadecimal text
+    if m in ('to_bytes', 'to_hex'):
+        nbytes = view[1] if view[1] is not None else (8 if m == 'to_bytes' else 16)
+        if m == 'to_hex':
+            nbytes //= 2
+        bo = view[2] or 'little'
+        exp = ser_amount(n, nbytes, bo)
+        if exc is not None:
+            if exp is None:
+                return res('refused_amount_does_not_fit', got='refused')
+            return res('raised', 'fitting_amount_refused|%s' % type(exc).__name__, got=repr(exc))
+        if m == 'to_bytes':
+            if type(got) is not bytes:
+                return res('wrong', 'returns_%s' % type(got).__name__, got=repr(got))
+            gb, shown = got, got.hex()
+        else:
+            if type(got) is not str:
+                return res('wrong', 'returns_%s' % type(got).__name__, got=repr(got))
+            try:
+                gb, shown = bytes.fromhex(got), got
+            except ValueError:
+                return res('wrong', 'not_hexadecimal_text', got=got)
+            if len(got) != 2 * len(gb):
+                return res('wrong', 'not_hexadecimal_text', got=got)
+        if exp is None:
+            return res('wrong', 'amount_that_does_not_fit_serialised', got=shown)
+        if gb == exp:
+            return res('exact', got=shown)
+        return res('wrong', cls_ser(exp, gb, n, bo), got=shown, expected=exp.hex(),
+                   reads_back_as=int.from_bytes(gb, bo))
+    # ---------------------------------------------------------------- integers / floats
+    if m in ('hex', 'index', 'int', 'float', 'value_sat'):
+        exp = {'hex': '0x' + hex_digits(n), 'index': n, 'value_sat': n, 'int': n // 10 ** UNIT,
+               'float': n / 10 ** UNIT}[m]               # int / int: correctly rounded by Python
+        if exc is not None:
+            return res('raised', 'raises_%s' % type(exc).__name__, got=repr(exc))
+        if type(got) is not type(exp):
+            return res('wrong', 'returns_%s' % type(got).__name__, got=repr(got))
+        if got == exp:
+            return res('exact', got=got)
+        if m in ('index', 'value_sat'):
+            return res('wrong', mag_err(n, got), got=got)
+        if m == 'hex':
+            try:
+                back = int(got, 16)
+            except ValueError:
+                return res('wrong', 'not_hexadecimal_text', got=got)
+            return res('wrong', 'same_amount_other_text' if back == n else 'other_amount', got=got, expected=exp)
+        if m == 'int':
+            return res('wrong', 'not_the_whole_main_units', got=got, expected=exp)
+        return res('wrong', 'not_the_double_nearest_to_the_amount_in_main_units', got=repr(got), expected=repr(exp))
+    # ---------------------------------------------------------------- repr
+    if m == 'repr':
+        import re
+        if exc is not None:
+            return res('raised', 'raises_%s' % type(exc).__name__, got=repr(exc))
+        mt = re.match(r"^Value\(value=(-?[0-9]+\.[0-9]+), denominator=([0-9.]+), network='([a-z0-9_]+)'\)$", str(got))
+        if not mt:
+            return res('wrong', 'unexplained_text', got=got)
+        if mt.group(3) != net:
+            return res('wrong', 'other_network', got=got)
+        t = text_check(mt.group(1), UNIT, n)
+        if t is None:
+            return res('not_demanded_too_few_decimals', got=got)
+        if t == n:
+            return res('exact', got=got)
+        return res('wrong', 'value_text|' + mag_err(n, t), got=got)
+    # ---------------------------------------------------------------- formatted text
+    if m == '__str__':
+        den, crepr = None, None
+    elif m == 'str':
+        den, crepr = view[1], view[3]
+    else:
+        den, crepr = (1 if m == 'str_unit' else 'auto'), view[2]
+    if exc is not None:
+        if den == 'auto' and n == 0 and isinstance(exc, ValueError) and 'Denominator not found' in str(exc):
+            r = res('auto_zero_refused', 'x', got=repr(exc))
+            r['sig'] = 'Value.str(auto)|zero_amount|raises_ValueError_denominator_not_found'
+            return r
+        return res('raised', 'raises_%s' % type(exc).__name__, got=repr(exc))
+    if type(got) is not str:
+        return res('wrong', 'returns_%s' % type(got).__name__, got=repr(got))
+    cur = rnets.NETS[net][CREPR[crepr or 'code']]
+    want = SYMS if den == 'auto' else [own_sym if den is None else '' if den == 1 else den]
+    num, _, unit = got.partition(' ')
+    syms = [s for s in want if unit == s + ('' if ('sat' in s and net == 'bitcoin') else cur)]
+    if len(syms) != 1:
+        return res('wrong', 'unit_text_is_not_denominator+currency', got=got, expected_unit=want[0] + cur
+                   if len(want) == 1 else 'a denominator symbol + ' + cur)
+    try:
+        t = text_check(num, shift_of(syms[0]), n)
+    except ValueError:
+        return res('wrong', 'number_text_unexplained', got=got)
+    if t is None:
+        return res('not_demanded_too_few_decimals', got=got)
+    if t == n:
+        return res('exact', got=got)
+    return res('wrong', 'den=%s|%s' % (den_class(syms[0]), mag_err(n, t)), got=got)
+
+
+def _mkobj(route, n, sym, net):
+    from bitcoinlib.values import Value
+    if route == 'from_satoshi':
+        return Value.from_satoshi(n, network=net), 'sat'
+    if route == 'from_satoshi_den':
+        return Value.from_satoshi(n, sym, network=net), sym
+    if route == 'text':
+        return Value(exact_str(n, shift_of(sym)) + ' ' + unit_text(sym, CODES[net]), network=net), sym
+    raise ValueError(route)
+
+
+def sub_views(case):
+    """case = {'net', 'route', 'den', 'pts': [n...], 'depth': 1|2|3, 'alpha': 'full'|'text'}.
+
+    depth 1: every view of the full alphabet on a fresh object per amount.  depth 2/3: every sequence of that
+    length over the reduced alphabet on ONE fresh object; every call is judged against the oracle for the
+    (immutable) amount of the object, and its result is compared with the result of the same call on a fresh
+    object."""
+    import itertools
+    net, route, sym, depth = case['net'], case['route'], case['den'], case.get('depth', 1)
+    rec = Rec()
+    alpha = view_alphabet(case.get('alpha', 'full') if depth == 1 else 'hist')
+    for n in case['pts']:
+        try:
+            v, own = _mkobj(route, n, sym, net)
+        except Exception as e:
+            rec.n += 1
+            rec.dev('Value(%s)|valid_amount_refused|%s' % (route, type(e).__name__),
+                    {'case': dict(case, pts=[n]), 'exc': repr(e)})
+            rec.o('object_refused')
+            continue
+        key = '%s|%s|%s|%d' % (net, route, sym, n)
+        fresh = []
+        for view in alpha:
+            r = eval_view(v if depth == 1 else _mkobj(route, n, sym, net)[0], view, net, own, n)
+            fresh.append(r)
+            if depth == 1:
+                rec.n += 1
+                rec.o(r['label'])
+                if r['sig']:
+                    rec.dev(r['sig'], r['detail'])
+                if not r['label'].startswith('not_demanded'):
+                    rec.nt.add(key + '|' + view[0])
+        if depth == 1:
+            continue
+        for seq in itertools.product(range(len(alpha)), repeat=depth):
+            v = _mkobj(route, n, sym, net)[0]
+            rs = [eval_view(v, alpha[i], net, own, n) for i in seq]
+            rec.n += depth
+            last, i = rs[-1], seq[-1]
+            before = '+'.join(alpha[j][0] for j in seq[:-1])
+            rec.o(last['label'])
+            if last['sig'] and last['sig'] == fresh[i]['sig']:
+                rec.dev(last['sig'], last['detail'])
+            elif last['sig']:
+                rec.dev('%s|only_after_other_calls' % last['sig'], dict(last['detail'], calls_before=before))
+            elif last['got'] != fresh[i]['got']:
+                rec.dev('%s|result_changes_after_other_calls' % view_site(alpha[i]),
+                        {'view': alpha[i], 'n': n, 'network': net, 'own_den': own, 'got': last['got'],
+                         'calls_before': before, 'fresh': fresh[i]['got']})
+            rec.nt.add(key + '|' + ','.join(str(j) for j in seq))
+    return rec.result()
+
+
+SUBS = {'views': sub_views, 'txflags': sub_txflags, 'win': sub_win, 'forms': sub_forms, 'numeric': sub_numeric, 'nets': sub_nets, 'txout': sub_txout,
         'fee': sub_fee, 'words': sub_words}
 
 
@@ -885,6 +1234,20 @@ def _k10(kmax):
                 if 0 <= c + dlt <= SUPPLY:
                     pts.add(c + dlt)
     return pts
+
+
+def _view_amounts():
+    """Amounts for the output forms: byte-length boundaries, byte patterns that are no palindromes, decimal
+    boundaries of the 'auto' denominator, powers of ten, the top of the supply."""
+    pts = {0, 1, 2, 15, 127, 128, 255, 256, 257, 300, 546, 999, 1000, 0x0102, 0xffff, 0x10000, 0x10203, 99999,
+           100000, 0xffffff, 0x1000000, 10 ** 8 - 1, 10 ** 8, 10 ** 8 + 1, 123456789, 2 ** 31 - 1, 2 ** 31,
+           2 ** 32 - 1, 2 ** 32, 2 ** 32 + 5, 10 ** 11 - 1, 10 ** 11, 123456789012, 2 ** 40 - 1, 2 ** 40,
+           0x0102030405, 10 ** 14 - 1, 10 ** 14, 2 ** 48 - 1, 2 ** 48, 2 ** 48 + 1, 0x01020304050607, TOP - 1, TOP,
+           TOP + 3, SUPPLY - 1, SUPPLY}
+    pts |= {10 ** j for j in range(16)} | {3 * 10 ** j + 7 for j in range(15)}
+    pts |= {0xab << (8 * j) for j in range(7)} | {(1 << (8 * j)) - 1 for j in range(1, 8)}
+    pts |= set(range(SUPPLY - 64, SUPPLY + 1))
+    return sorted(p for p in pts if 0 <= p <= SUPPLY)
 
 
 def run(ctx):
@@ -1043,6 +1406,48 @@ def run(ctx):
                     fcases.append({'ins': [a, b], 'outs': [c]})
                     fcases.append({'ins': [a], 'outs': [b, c]})
         ctx.pmap('fee', fcases)
+    # ------------------------------------------------------------------ output forms of one Value object
+    if want('views'):
+        va = _view_amounts()
+        small = [0, 1, 15, 255, 256, 300, 999, 1000, 0xffff, 0x10000, 99999, 100000, 10 ** 8, 123456789, 2 ** 32 - 1,
+                 2 ** 32 + 5, 10 ** 11, 123456789012, 0x0102030405, 10 ** 14, 0x01020304050607, TOP - 1, TOP + 3,
+                 SUPPLY - 1, SUPPLY]
+        hist = [0, 1, 300, 123456789, 2 ** 32 + 5, SUPPLY]
+        hsyms = ['', 'sat', 'm', 'µ', 'k', 'msat']
+        few = [0, 1, 300, 1000, 123456789, 2 ** 32 + 5, 10 ** 11, 0x01020304050607, TOP + 3, SUPPLY - 1, SUPPLY]
+        cases = []
+        for net in rnets.NAMES:
+            # quick: the byte/hex/integer forms do not depend on the network, they are enumerated in full on
+            # bitcoin; the other networks get every formatted-text view plus the reduced alphabet
+            main = net == 'bitcoin' or not q
+            alpha = 'full' if main else 'text'
+            pts = sorted(set(va) | set(range(0, (256 if q else 8192) if net == 'bitcoin' else 1024))) if main else small
+            for i in range(0, len(pts), 64):
+                cases.append({'net': net, 'route': 'from_satoshi', 'den': 'sat', 'pts': pts[i:i + 64], 'depth': 1,
+                              'alpha': alpha})
+            for sym in (SYMS if main else hsyms):
+                for route in VIEW_ROUTES[1:]:
+                    cases.append({'net': net, 'route': route, 'den': sym, 'depth': 1, 'alpha': alpha,
+                                  'pts': va if not q else small if main else few})
+        # call histories on one object: all sequences of length 2 (thorough: 3) over the reduced alphabet
+        hnets = ['bitcoin', 'testnet', 'litecoin', 'dogecoin_testnet']
+        for depth in ((2,) if q else (2, 3)):
+            for net in (hnets if q or depth == 3 else rnets.NAMES):
+                for route in VIEW_ROUTES:
+                    for sym in (hsyms if route != 'from_satoshi' else ['sat']):
+                        for n in hist:
+                            cases.append({'net': net, 'route': route, 'den': sym, 'pts': [n], 'depth': depth})
+        ctx.pmap('views', cases, chunk=1)
+        ctx.note('views', {
+            'view_calls_per_object': len(view_alphabet('full')), 'history_alphabet': len(view_alphabet('hist')),
+            'view_calls_per_object_other_networks': len(view_alphabet('full' if not q else 'text')),
+            'history_depth': 2 if q else 3, 'amounts': len(va), 'amounts_den_routes': len(small if q else va),
+            'to_bytes_lengths': [x or 'default' for x in BYTES_LEN], 'to_hex_lengths': [x or 'default' for x in HEX_LEN],
+            'byteorders': [x or 'default' for x in SER_BO], 'currency_repr': ['default'] + sorted(CREPR),
+            'decimals': ['default', 0, 8], 'routes': list(VIEW_ROUTES),
+            'history_networks': hnets if q else 'all for depth 2, %s for depth 3' % hnets,
+            'window_from_satoshi': '[0,256) on bitcoin' if q else '[0,8192) on bitcoin, [0,1024) on the other networks',
+            'history_amounts': hist, 'history_denominators': hsyms})
     if want('words'):
         ctx.pmap('words', ['SAT', 'Sat', 'XYZ', 'bitcoin', 'satoshi', 'BTCX', 'mXYZ', 'Msat', 'ksat', 'Da'])
 
